@@ -140,7 +140,8 @@ type jwtSpec struct {
 
 type cred struct {
 	urlU, urlP string
-	hdr        string // "-", "basic", "bearer", "token", "other"
+	hdr        string // "-", "basic", "bearer", "token", "other", "jwt" (a bearer token described in detail: jt)
+	jt         jwtTok
 	hu, hp     string // basic
 	tok        jwtSpec
 	tokenStr   string // token: text after "Token "
@@ -158,6 +159,12 @@ func (c cred) op() string {
 			u += hexs(c.tok.user.name)
 		}
 		h = "bearer:" + b01(c.tok.parses) + b01(c.tok.expOk) + ":" + u
+	case "jwt":
+		u := c.jt.user.kind
+		if u == "n" {
+			u += hexs(c.jt.user.name)
+		}
+		h = "jwt:" + string([]byte{c.jt.alg, c.jt.key, c.jt.exp, c.jt.nbf}) + ":" + u
 	case "token":
 		h = "token:" + hexs(c.tokenStr)
 	case "other":
@@ -233,6 +240,8 @@ func (c cred) applyHeader(r *http.Request, secret string) {
 		r.Header.Set("Authorization", "Basic "+base64.StdEncoding.EncodeToString([]byte(c.hu+":"+c.hp)))
 	case "bearer":
 		r.Header.Set("Authorization", "Bearer "+c.token(secret))
+	case "jwt":
+		r.Header.Set("Authorization", "Bearer "+c.jt.sign(secret))
 	case "token":
 		r.Header.Set("Authorization", "Token "+c.tokenStr)
 	case "other":
